@@ -40,6 +40,11 @@ class RepeatingEventBase(EventBase):
             inband=self.inband)
 
         if not self.inband and self.count > 0:
+            # every one of these events is listed in the manifest
+            max_events: int = 100_000
+            if self.count > max_events:
+                raise ValueError(
+                    f'Too many events for an EventStream (more than {max_events})')
             presentation_time = self.start
             for idx in range(self.count):
                 data = self.get_manifest_event_payload(idx, presentation_time)
